@@ -546,5 +546,68 @@ PROPS["C10"] = {"gen": c10,
     "assumptions": ["states satisfy RI_dir / RI_und"]}
 
 
+BFS_ALG = {0: "findVertexPredecessors", 1: "findAllVertexPredecessors", 2: "findGeodesics", 3: "findAllGeodesics", 4: "findGeodesicsFromVertex", 5: "findAllGeodesicsFromVertex", 6: "findPathToVertexFromPredecessors"}
+
+
+def bfs_ob(prop, und, n, alg, fixs=None, **kw):
+    nm = max(n, 1)
+    defs = caps(n, n)
+    qcap = nm * nm + 2 if alg in (1, 3, 5) else nm + 1
+    front = nm + 1 if alg in (2, 3, 4, 5, 6) else 0          # push_front zone: only the path reconstructions use it
+    lcap = front + nm + 1
+    defs.update({"UND": und, "ALG": alg, "VERIF_LIST_FRONT": front, "VERIF_LIST_CAP": lcap, "VERIF_QUEUE_CAP": qcap})
+    if fixs is not None:
+        defs["FIXS"] = fixs
+    b = ("findVertexPredecessors=%d,findAllVertexPredecessors&#0=%d,findAllVertexPredecessors&#1=%d,findMultiplePathsToVertexFromPredecessors=%d,findPathToVertexFromPredecessors=%d,valid_path=%d,default=%d"
+         % (nm + 2, qcap + 2, nm + 2, qcap + 2, nm + 2, nm + 3, lcap + 2))
+    ob = {"id": "%s/%s/n%d/%s%s" % (prop, "und" if und else "dir", n, BFS_ALG[alg], "" if fixs is None else "-s%d" % fixs), "src": "bfs.cpp", "defs": defs, "bounds": "unordered_map=%d," % (nm * nm + 2) + b, "count_ub": False}
+    ob.update(kw)
+    return ob
+
+
+def c11(tier):
+    obs = []
+    for und in (0, 1):
+        for alg in (0, 1, 2, 3, 4, 5, 6):
+            for n in ((1, 2, 3) if tier == "quick" else (1, 2, 3, 4)):
+                if n == 4:
+                    for s in range(4):
+                        if alg in (4, 5) :
+                            continue
+                        obs.append(bfs_ob("C11", und, n, alg, fixs=s, timeout=3000, mem_gb=12, optional_reach=[""]))
+                else:
+                    obs.append(bfs_ob("C11", und, n, alg, optional_reach=[""] if n < 3 else []))
+    return obs
+
+
+def c19(tier):
+    obs = []
+    for und in (0, 1):
+        for alg in (0, 1):
+            for n in ((2, 3) if tier == "quick" else (2, 3, 4)):
+                if n == 4:
+                    for s in range(4):
+                        obs.append(bfs_ob("C19", und, n, alg, fixs=s, timeout=3000, mem_gb=12, optional_reach=[""]))
+                else:
+                    obs.append(bfs_ob("C19", und, n, alg, optional_reach=[""]))
+    if tier == "thorough":
+        defs = {"N": 9, "NM": 9, "DUP": 1, "VH_LC": 2, "UND": 0, "ALG": 1, "FAMILY": 1, "VERIF_VEC_CAP": 9, "VERIF_LIST_CAP": 3, "VERIF_LIST_FRONT": 0, "VERIF_KEY_MAX": 1, "VERIF_QUEUE_CAP": 40, "VERIF_SET_CAP": 2, "VERIF_MAP_CAP": 2}
+        obs.append({"id": "C19/dir/layered-1-2-2-2-2/findAllVertexPredecessors", "src": "bfs.cpp", "defs": defs, "bounds": "findAllVertexPredecessors&#0=42,findAllVertexPredecessors&#1=4,harness=11,vector=11,resize=11,default=6", "timeout": 3400, "mem_gb": 20, "optional_reach": [""], "no_validate": False})
+    return obs
+
+
+PROPS["C11"] = {"gen": c11,
+    "bounds": {"quick": "every directed and undirected graph on 1..3 vertices (cycles, self-loops, several components), every neighbour order, every source and destination", "thorough": "also 4 vertices (one sub-query per source)"},
+    "outside": "graphs of 5-6 vertices and random larger graphs named by the property text (N=5 does not finish within the budget); labelled graph types (the searches do not read labels)",
+    "explanation": "Results are compared with hop distances and shortest-path counts computed in the harness by n rounds of relaxation over the symbolic adjacency matrix; returned paths are checked edge by edge; all-geodesics results for count, validity and pairwise difference.",
+    "assumptions": ["graph states satisfy RI_dir / RI_und", "queue/stack capacities of the model (n*n+2 for the all-predecessor searches) are not exceeded (capacity overflow is an assumption)"]}
+PROPS["C19"] = {"gen": c19,
+    "bounds": {"quick": "findVertexPredecessors (<= V scans) and findAllVertexPredecessors (<= V+E scans) on every directed/undirected graph of 2..3 vertices, every source; Dijkstra (<= V+E+1) on 2..3 vertices with up to 3 edges",
+               "thorough": "4 vertices; the layered family 1-2-2-2-2 (9 vertices, every subset and order of edges between consecutive layers) for findAllVertexPredecessors"},
+    "outside": "graphs beyond these sizes - the asymptotic statement is claimed only up to them",
+    "explanation": "The searches are instantiated on a harness-defined graph type that counts getOutNeighbours calls; the assertions are exactly the totals the property states.",
+    "assumptions": ["queue capacity 40 on the layered family"]}
+
+
 def obligations(prop, tier):
     return PROPS[prop]["gen"](tier)
